@@ -4,6 +4,7 @@ import (
 	"bytes"
 	"errors"
 	"fmt"
+	"path"
 	"regexp"
 	"strings"
 
@@ -150,6 +151,11 @@ func validSubmoduleName(name string) error {
 		}
 	}
 	// go-git-specific defensive checks beyond canonical Git.
+	// A name whose components are all "." ("./.", "././.") resolves to
+	// .git/modules itself, exactly like the bare "." rejected above.
+	if path.Clean(strings.ReplaceAll(name, "\\", "/")) == "." {
+		return ErrModuleBadName
+	}
 	if strings.ContainsRune(name, 0) {
 		return ErrModuleBadName
 	}
